@@ -131,6 +131,11 @@ bool ops_image(Ctx& c, const json& s, int idx, bool& handled) {
 						for (std::size_t i = 0; i <= art->imageMetas.size() + 1; ++i) tryOp("ExtractImage", [&] { loader.ExtractImage(i, ROOT + "/sprite.bmp"); });
 						tryOp("FrameCount", [&] { if (!art->animations.empty()) { (void)loader.FrameCount(0); if (!art->animations[0].frames.empty()) (void)loader.LayerCount(0, 0); } }); }); } } }
 		at("load");
+		// a proper prefix is refused through every entry point: the same bytes offered as a file (a file reader may be positioned beyond its end)
+		if (must == "refuse") { const std::string pth = via_path("prefix.bin"); Scen::spit(pth, img); bool fileErr = false;
+			try { if (kind == "bmp") { (void)BitmapFile::ReadIndexed(pth); Stream::FileReader fr(pth); (void)BitmapFile::ReadIndexed(fr); } else if (kind == "tileset") { Stream::FileReader fr(pth); (void)Tileset::ReadTileset(fr); } else (void)ArtFile::Read(pth); }
+			catch (const std::exception&) { fileErr = true; }
+			if (!fileErr) { Proto::mismatch(fsite, "accepted-should-refuse", where("a proper prefix of a valid file was loaded from a FILE (" + std::to_string(img.size()) + " bytes)")); return false; } }
 		if (must == "refuse" && !err) { Proto::mismatch(fsite, "accepted-should-refuse", where("a proper prefix of a valid file was loaded (" + std::to_string(img.size()) + " bytes)")); return false; }
 		if (must == "accept" && err) { Proto::mismatch(fsite, "refused-should-accept", where("")); return false; }
 		return true; }
